@@ -353,6 +353,7 @@ package bundle
 //@   may_panic
 //@   requires is != nil && e != nil
 //@   ensures[entry-recorded] result == nil ==> len(is.es) == old(len(is.es)) + 1 && is.es[old(len(is.es))] != nil && is.es[old(len(is.es))].Offset == uint64(offset) && is.es[old(len(is.es))].Length == uint64(length) && is.es[old(len(is.es))].Request.URL == e.Request.URL
+//@   ensures[variants-from-all-field-values] result == nil ==> is.es[old(len(is.es))].Variants == old(normalizeHeaderValues(mapget(e.Response.Header, canonHeader("variants")))) && is.es[old(len(is.es))].VariantKey == old(normalizeHeaderValues(mapget(e.Response.Header, canonHeader("variant-key"))))
 //@   ensures[earlier-entries-kept] result == nil ==> forall k int :: 0 <= k && k < old(len(is.es)) ==> is.es[k] == old(is.es[k])
 //@   ensures[storage] result == nil ==> (fresh(is.es) || (base(is.es) == old(base(is.es)) && old(cap(is.es)) > 0))
 //@   ensures result == nil
